@@ -181,7 +181,7 @@ func runC12(c *core.Ctx) {
 			k.forceAuthn = boolPtr(false)
 		}
 		if r.Intn(3) == 0 {
-			k.authnCtx = &saml.RequestedAuthnContext{Comparison: "exact", AuthnContextClassRef: "urn:oasis:names:tc:SAML:2.0:ac:classes:PasswordProtectedTransport"}
+			k.authnCtx = &saml.RequestedAuthnContext{Comparison: []string{"exact", "exact", "", "minimum", "better"}[r.Intn(5)], AuthnContextClassRef: "urn:oasis:names:tc:SAML:2.0:ac:classes:PasswordProtectedTransport"}
 		}
 		c12Sequence(c, k, 1+r.Intn(c.Pick(12, 200))+c.Pick(60, 300)*boolInt(r.Intn(12) == 0))
 	}
